@@ -143,7 +143,7 @@ end
 
 /-! ### the expression ladder
 
-`ifExpression`, the ten chain rungs, `unary` and `primary` of `src/parser/expressions.go` as modelled by `DDP.LadderParse` (shape and
+`ifExpression`, `boolXOR`, the ten chain rungs, `unary` and `primary` of `src/parser/expressions.go` as modelled by `DDP.LadderParse` (shape and
 operator table regenerated from the source, tied to the real parser by `vlib/laddercorr.py`): the Go functions recurse
 without any counter; the model carries fuel only to be a structural recursion. These theorems say the fuel is idle. -/
 
@@ -155,10 +155,10 @@ theorem ladder_rungs_consume (f k : Nat) (ts : List DDP.LadderParse.Tok) (x : DD
   (progress DDP.Ladder.ddpTbl f).1 k ts x h
 
 open DDP.LadderParse in
-/-- **The expression ladder terminates on every token sequence**, well-formed or not: with `|ts|·14 + 11 − k` units of fuel
+/-- **The expression ladder terminates on every token sequence**, well-formed or not: with `|ts|·15 + 11 − k` units of fuel
 rung `k` has answered, and no larger amount changes the answer — acceptance *and* rejection are decided, never cut off -/
-theorem expression_ladder_terminates (k : Nat) (ts : List DDP.LadderParse.Tok) (f : Nat) (hf : ts.length * 14 + (11 - k) ≤ f) :
-    parse DDP.Ladder.ddpTbl f k ts = parse DDP.Ladder.ddpTbl (ts.length * 14 + (11 - k)) k ts := by
+theorem expression_ladder_terminates (k : Nat) (ts : List DDP.LadderParse.Tok) (f : Nat) (hf : ts.length * 15 + (11 - k) ≤ f) :
+    parse DDP.Ladder.ddpTbl f k ts = parse DDP.Ladder.ddpTbl (ts.length * 15 + (11 - k)) k ts := by
   have h := fuel_irrelevant DDP.Ladder.ddpTbl k ts f
   have hn : DDP.Ladder.ddpTbl.n = 10 := DDP.Ladder.chain_table_from_source.1
   unfold bound at h
@@ -168,7 +168,7 @@ theorem expression_ladder_terminates (k : Nat) (ts : List DDP.LadderParse.Tok) (
 open DDP.LadderParse in
 /-- non-vacuity: an ill-formed sequence is rejected with the bound's fuel (not for lack of it: `fuel_irrelevant`), a
 well-formed one accepted -/
-example : parse DDP.Ladder.ddpTbl (2 * 14 + 11) 0 [DDP.LadderParse.Tok.atom 1, DDP.LadderParse.Tok.bop 5] = none ∧
-    parse DDP.Ladder.ddpTbl (3 * 14 + 11) 0 [DDP.LadderParse.Tok.atom 1, DDP.LadderParse.Tok.bop 5, DDP.LadderParse.Tok.atom 2] = some (DDP.LadderParse.E.bin 5 (DDP.LadderParse.E.atom 1) (DDP.LadderParse.E.atom 2), []) := by decide
+example : parse DDP.Ladder.ddpTbl (2 * 15 + 11) 0 [DDP.LadderParse.Tok.atom 1, DDP.LadderParse.Tok.bop 5] = none ∧
+    parse DDP.Ladder.ddpTbl (3 * 15 + 11) 0 [DDP.LadderParse.Tok.atom 1, DDP.LadderParse.Tok.bop 5, DDP.LadderParse.Tok.atom 2] = some (DDP.LadderParse.E.bin 5 (DDP.LadderParse.E.atom 1) (DDP.LadderParse.E.atom 2), []) := by decide
 
 end DDP.C03
